@@ -111,6 +111,9 @@ struct Sim
     long bypass = 0;
     bool dirseek_max = true;
     std::string cwd = "/sim";
+    // simulated wall clock (seconds since the epoch): the only clock sbeppc can read while it runs
+    long long now = 1750000000;
+    long clock_reads = 0;
     // persistent condition of the environment (no search permission, name too long, symlink loop...):
     // every mkdir/stat/lstat/open on a path at or below cond_prefix fails with cond_errno
     std::string cond_prefix;
@@ -798,6 +801,43 @@ int unlink(const char* path)
     return 0;
 }
 
+// The wall clock is the simulator's: every run of a history happens at the simulated time the plan
+// says (seconds, days or years after the previous one). Monotonic / CPU clocks pass through.
+time_t time(time_t* t)
+{
+    if(!g.active)
+    {
+        struct timespec ts;
+        syscall(SYS_clock_gettime, CLOCK_REALTIME, &ts);
+        if(t) *t = ts.tv_sec;
+        return ts.tv_sec;
+    }
+    g.clock_reads++;
+    if(t) *t = (time_t)g.now;
+    return (time_t)g.now;
+}
+
+int clock_gettime(clockid_t id, struct timespec* ts)
+{
+    if(!g.active || (id != CLOCK_REALTIME && id != CLOCK_REALTIME_COARSE && id != CLOCK_TAI)) return (int)syscall(SYS_clock_gettime, id, ts);
+    g.clock_reads++;
+    ts->tv_sec = (time_t)g.now;
+    ts->tv_nsec = 123456789;
+    return 0;
+}
+
+int gettimeofday(struct timeval* tv, void* tz)
+{
+    if(!g.active) return (int)syscall(SYS_gettimeofday, tv, tz);
+    g.clock_reads++;
+    if(tv)
+    {
+        tv->tv_sec = (time_t)g.now;
+        tv->tv_usec = 123456;
+    }
+    return 0;
+}
+
 // the simulated process lives in /sim: relative paths are resolved against it everywhere (norm), so
 // code that asks for the working directory (std::filesystem::absolute / relative / canonical) must
 // be told the same
@@ -1183,7 +1223,212 @@ const char kFreedPattern[] = "\xDD\xDD\xDD\xDD\xDD\xDD\xDD\xDD";
 const char kFreshPattern[] = "\xCD\xCD\xCD\xCD\xCD\xCD\xCD\xCD";
 
 // The call into real code. Everything around it is simulator.
+RunOutcome run_sbeppc_here(const std::vector<std::string>& args, const std::vector<FaultSpec>& faults, long yank_at, long diskfull);
+
+// ---------------------------------------------------------- process isolation
+// A real sbeppc invocation is a fresh process: function-local statics, caches and anything else with
+// process lifetime start from scratch every time. With g_isolate set (C20) every run - the reference
+// runs included - therefore happens in a forked child of a worker that itself never executes sbeppc
+// code; the child ships the outcome, the resulting file tree and its statistics back through a pipe.
+bool g_isolate = false;
+
+struct Ser
+{
+    std::string b;
+    void num(long long v) { b.append(reinterpret_cast<const char*>(&v), sizeof v); }
+    void str(const std::string& s)
+    {
+        num((long long)s.size());
+        b += s;
+    }
+};
+struct De
+{
+    const std::string& b;
+    std::size_t o;
+    bool bad = false;
+    long long num()
+    {
+        long long v = 0;
+        if(o + sizeof v > b.size())
+        {
+            bad = true;
+            return 0;
+        }
+        std::memcpy(&v, b.data() + o, sizeof v);
+        o += sizeof v;
+        return v;
+    }
+    std::string str()
+    {
+        long long n = num();
+        if(bad || n < 0 || o + (std::size_t)n > b.size())
+        {
+            bad = true;
+            return "";
+        }
+        std::string s = b.substr(o, (std::size_t)n);
+        o += (std::size_t)n;
+        return s;
+    }
+};
+
 RunOutcome run_sbeppc(const std::vector<std::string>& args, const std::vector<FaultSpec>& faults, long yank_at, long diskfull)
+{
+    if(!g_isolate) return run_sbeppc_here(args, faults, yank_at, diskfull);
+    int fd[2];
+    if(pipe(fd) != 0) _exit(3);
+    fflush(stdout);
+    fflush(stderr);
+    pid_t pid = fork();
+    if(pid == 0)
+    {
+        syscall(SYS_close, fd[0]);
+        sim::crash_ctx().mode = 2; // a crash-class outcome is written to the pipe by crash_report
+        sim::crash_ctx().pipe_fd = fd[1];
+        sim::stats().counters.clear();
+        sim::stats().tuples.clear();
+        sim::stats().samples.clear();
+        RunOutcome ro = run_sbeppc_here(args, faults, yank_at, diskfull);
+        Ser s;
+        s.b = "R\n";
+        s.num(ro.rc);
+        s.str(ro.kind);
+        s.str(ro.out);
+        s.num(ro.diag);
+        s.num((long long)ro.trace.size());
+        for(auto& t : ro.trace)
+        {
+            s.num(t.kind);
+            s.str(t.path);
+            s.num(t.len);
+        }
+        s.num((long long)ro.hard.size());
+        for(auto& h : ro.hard) s.str(h);
+        s.num((long long)ro.soft.size());
+        for(auto& h : ro.soft) s.str(h);
+        s.num(ro.hard_output);
+        s.num(ro.hard_input);
+        s.num(ro.bypass);
+        s.num((long long)ro.faults.size());
+        for(auto& q : ro.faults)
+        {
+            s.num(q.kind);
+            s.num(q.ordinal);
+            s.str(q.outcome);
+            s.num(q.arg);
+            s.num(q.fired);
+        }
+        s.num((long long)g.fs.size());
+        for(auto& kv : g.fs)
+        {
+            s.str(kv.first);
+            s.num(kv.second.dir);
+            s.str(kv.second.data);
+            s.num(kv.second.created_by_run);
+            s.num(kv.second.readonly);
+            s.str(kv.second.link);
+        }
+        s.num(g.cond_fired);
+        s.num((long long)sim::stats().counters.size());
+        for(auto& kv : sim::stats().counters)
+        {
+            s.str(kv.first);
+            s.num((long long)kv.second);
+        }
+        s.num((long long)sim::stats().tuples.size());
+        for(auto& t : sim::stats().tuples) s.str(t);
+        std::size_t off = 0;
+        while(off < s.b.size())
+        {
+            long w = syscall(SYS_write, fd[1], s.b.data() + off, s.b.size() - off);
+            if(w <= 0) break;
+            off += (std::size_t)w;
+        }
+        _exit(0);
+    }
+    syscall(SYS_close, fd[1]);
+    std::string in;
+    char buf[1 << 16];
+    for(;;)
+    {
+        long n = syscall(SYS_read, fd[0], buf, sizeof buf);
+        if(n > 0)
+            in.append(buf, (std::size_t)n);
+        else if(n == 0 || errno != EINTR)
+            break;
+    }
+    syscall(SYS_close, fd[0]);
+    int st = 0;
+    while(waitpid(pid, &st, 0) < 0 && errno == EINTR) {}
+    sim::stats().count("probe.runs_in_a_fresh_process");
+    if(in.compare(0, 2, "1\n") == 0)
+    {
+        // crash-class outcome reported by the child: hand it on the way this process would have reported it
+        std::istringstream is(in.substr(2));
+        std::string sig, fpl, detail, l;
+        std::getline(is, sig);
+        std::getline(is, fpl);
+        while(std::getline(is, l)) detail += l + " ";
+        sim::crash_report(sig, detail);
+    }
+    if(in.compare(0, 2, "R\n") != 0 || !WIFEXITED(st) || WEXITSTATUS(st) != 0)
+        sim::crash_report(g_prop + ":CRASH:" + (WIFSIGNALED(st) ? "signal" + std::to_string(WTERMSIG(st)) : "child-died"), "the process running sbeppc died without reporting");
+    De d{in, 2};
+    RunOutcome ro;
+    ro.rc = (int)d.num();
+    ro.kind = d.str();
+    ro.out = d.str();
+    ro.diag = d.num() != 0;
+    for(long long k = d.num(); k > 0 && !d.bad; k--)
+    {
+        TraceEntry t;
+        t.kind = (int)d.num();
+        t.path = d.str();
+        t.len = (long)d.num();
+        ro.trace.push_back(t);
+    }
+    for(long long k = d.num(); k > 0 && !d.bad; k--) ro.hard.push_back(d.str());
+    for(long long k = d.num(); k > 0 && !d.bad; k--) ro.soft.push_back(d.str());
+    ro.hard_output = d.num() != 0;
+    ro.hard_input = d.num() != 0;
+    ro.bypass = (long)d.num();
+    for(long long k = d.num(); k > 0 && !d.bad; k--)
+    {
+        FaultSpec q;
+        q.kind = (int)d.num();
+        q.ordinal = (long)d.num();
+        q.outcome = d.str();
+        q.arg = (long)d.num();
+        q.fired = d.num() != 0;
+        ro.faults.push_back(q);
+    }
+    std::map<std::string, Node> fs;
+    for(long long k = d.num(); k > 0 && !d.bad; k--)
+    {
+        std::string path = d.str();
+        Node nd;
+        nd.dir = d.num() != 0;
+        nd.data = d.str();
+        nd.created_by_run = d.num() != 0;
+        nd.readonly = d.num() != 0;
+        nd.link = d.str();
+        fs[path] = nd;
+    }
+    g.cond_fired = (long)d.num();
+    for(long long k = d.num(); k > 0 && !d.bad; k--)
+    {
+        std::string key = d.str();
+        sim::stats().count(key, (std::uint64_t)d.num());
+    }
+    for(long long k = d.num(); k > 0 && !d.bad; k--) sim::stats().tuple(d.str());
+    if(d.bad) sim::crash_report("HARNESS:isolation-protocol", "truncated result from the process running sbeppc");
+    g.fs = fs;
+    g.faults = ro.faults;
+    return ro;
+}
+
+RunOutcome run_sbeppc_here(const std::vector<std::string>& args, const std::vector<FaultSpec>& faults, long yank_at, long diskfull)
 {
     RunOutcome ro;
     std::vector<std::string> store = args;
@@ -1471,9 +1716,11 @@ const Ref& reference(const std::string& schema, long outv, long argv_v = 0)
     auto saved = g.fs;
     Ref r;
     std::map<std::string, std::string> first;
+    const long long saved_now = g.now;
     for(int round = 0; round < 2; round++)
     {
         fs_reset();
+        g.now = 1750000000 + (round ? 3 : 0); // the reference is taken at a fixed simulated time (the second fresh run 3 s later)
         g.fs["/sim/in/" + schema].data = g_corpus.files[schema];
         perturb_heap(round ? 0x5eed + sim::fnv1a(key.data(), key.size()) : 0);
         RunOutcome ro = run_sbeppc(argv_variant(argv_v, schema, outv), {}, -1, -1);
@@ -1501,6 +1748,7 @@ const Ref& reference(const std::string& schema, long outv, long argv_v = 0)
         }
     }
     perturb_heap(0);
+    g.now = saved_now;
     r.files = first;
     if(r.ok)
     {
@@ -1972,12 +2220,14 @@ Result exec_plan(const Plan& plan)
     install_handlers();
     const std::string prop = plan.get("property");
     g_prop = prop;
+    g_isolate = prop == "C20";
     Result res;
     sim::Hasher fp;
     fs_reset();
     g.cond_errno = 0;
     g.cond_prefix.clear();
     g.dirseek_max = true;
+    g.now = 1750000000 + 7; // every history starts a few seconds after the reference was taken
     PendingRun pr;
     std::set<std::string> known_sigs;
     for(const std::string& src : {plan.get("known"), sim::options().count("known") ? sim::options()["known"] : std::string()})
@@ -2005,6 +2255,12 @@ Result exec_plan(const Plan& plan)
         }
         else if(n == "heap")
             pr.heap = op.uarg(0);
+        else if(n == "clock")
+        {
+            // the simulated wall clock moves on by this many seconds before the next run
+            g.now += op.arg(0);
+            sim::stats().count(op.arg(0) >= 366L * 86400 ? "history.clock.years_later" : op.arg(0) >= 86400 ? "history.clock.days_later" : "history.clock.seconds_later");
+        }
         else if(n == "fault")
         {
             FaultSpec f;
@@ -2362,7 +2618,7 @@ Result exec_plan(const Plan& plan)
                         if(it->second.data != *want)
                         {
                             const bool faulted = !ro.hard.empty() || !ro.soft.empty();
-                            fail(faulted ? "exit0-file-incomplete" : "rerun-differs", "exit 0 but " + path + " has " + std::to_string(it->second.data.size()) + " bytes, reference " + std::to_string(want->size()) + (faulted ? "" : " (no fault fired: output depends on directory contents or heap layout)") + ctx);
+                            fail(faulted ? "exit0-file-incomplete" : "rerun-differs", "exit 0 but " + path + " has " + std::to_string(it->second.data.size()) + " bytes, reference " + std::to_string(want->size()) + (faulted ? "" : " (no fault fired: the output depends on directory contents, heap layout, the wall clock or earlier runs)") + ctx);
                             break;
                         }
                     }
@@ -2422,6 +2678,7 @@ std::vector<std::string> tier_schemas(const std::string& tier, const std::string
     (void)tier;
     load_corpus();
     if(prop != "C20") return g_corpus.names;
+    g_isolate = true;
     install_handlers();
     std::vector<std::string> out;
     for(auto& n : g_corpus.names)
@@ -2550,6 +2807,7 @@ Plan gen_c20(u64 seed, const std::string& tier)
     const int nruns = (int)wl.range(1, 4);
     // swarm: which fault kinds are enabled in this plan
     const bool en_single = fl.chance(2, 3), en_yank = fl.chance(1, 4), en_full = fl.chance(1, 4), en_heap = fl.chance(1, 2), en_prefill = fl.chance(1, 3), en_cond = fl.chance(1, 6);
+    const bool en_clock = root.fork("clock").chance(1, 2);
     long outv = (long)wl.below(5);
     for(int i = 0; i < nruns; i++)
     {
@@ -2575,6 +2833,15 @@ Plan gen_c20(u64 seed, const std::string& tier)
                 c.s = {"", ""};
             else
                 c.s = {errs[fl.below(4)], out_root_abs(outv)};
+            p.ops.push_back(c);
+        }
+        if(en_clock && (i > 0 || fl.chance(1, 2)))
+        {
+            // time passes between the runs of a history: seconds, days, into the next year, years
+            static const long kDelta[] = {1, 61, 3601, 86400, 40L * 86400, 200L * 86400, 366L * 86400, 5L * 366 * 86400};
+            Op c;
+            c.name = "clock";
+            c.a = {(long long)kDelta[fl.below(8)]};
             p.ops.push_back(c);
         }
         if(en_heap)
